@@ -1307,6 +1307,32 @@ pub fn run_c07(tier: Tier) -> i32 {
             }
         }
     }
+    // prepaid bad debt in the books, an (almost) empty vault and a deeply under-water position whose loss a third
+    // party's trade has reduced by a family of amounts: the bad debt a liquidation realises is then smaller than,
+    // about equal to, or larger than what was prepaid, and the vault plus the advance may or may not cover the fee
+    {
+        let mut seeds = vec![];
+        for short in [true, false] {
+            for m in [500_000u128, 1_000_000, 1_500_000, 2_000_000, 2_500_000, 3_000_000, 3_500_000, 4_000_000, 5_000_000, 7_000_000] {
+                seeds.push(vec![
+                    Act::blk(15),
+                    Act::open("alice", !short, 20 * D, 10 * D),
+                    Act::open("bob", !short, 20 * D, 10 * D),
+                    Act::blk(15),
+                    Act::close("alice"),
+                    Act::open("carol", !short, m, 10 * D),
+                    Act::blk(1200),
+                    px_at_spot(),
+                ]);
+            }
+        }
+        let alpha = vec![Act::liq("liq", "bob"), Act::liq("liq", "carol"), Act::liq("alice", "bob"), Act::blk(15)];
+        for cw20 in tier.pick(vec![true], vec![true, false]) {
+            let mut e = Exp::new("prepaid bad debt, family of third-party trades", mk(cw20, 0, false), alpha.clone(), seeds.clone(), tier.pick(1, 2));
+            e.traders = T3.to_vec();
+            exps.push(e);
+        }
+    }
     push_sweep(&mut exps, tier.pick(2, 3));
     push_dust(&mut exps, true, tier.pick(3, 4));
     push_two_vamms(&mut exps, tier.pick(3, 4));
